@@ -223,6 +223,8 @@ def check_transitions_split(ctx):
             t_ = parse_sx(av.sx, full=True)
             if isinstance(t_, ast.Subscript):
                 lst, key = norm_text(t_.value), norm_text(t_.slice)
+        if lst is None and av is not None and av.zip_src is not None:
+            lst, key = av.zip_src, av.zip_key  # an item of zip(L0, L1, ...) however the zip was spelled
         origin = parse_sx(lst, full=True) if lst else None
         if (origin is None or not isinstance(origin, ast.Call)) and av is not None and av.ty == 'obj' and av.sliced_from is not None:
             # a trajectory piece: identified by the object it was sliced from
@@ -309,6 +311,11 @@ def check_jumps_split(ctx):
 
 
 # --------------------------------------------------------------------------------------------------- Trajectory.split
+def _slice_lower(node):
+    sl = node.slice if isinstance(node, ast.Subscript) else None
+    return sl.lower if isinstance(sl, ast.Slice) and sl.lower is not None else node
+
+
 def check_traj_split(ctx):
     fi = ctx.fn(TRS)
     it = ctx.entry(TRS)
@@ -341,6 +348,14 @@ def check_traj_split(ctx):
                                                      or (lo.pair_pos == 0 and sl.hi is None))
         if lo is not None and lo.pair_pos == 0 and hi is None:
             bad = True
+        # self[a : a + w] with a = start of a part and w = the smallest part width: inside [start, stop), all of one size
+        lo_src = lo.pair_src if (lo is not None and lo.pair_pos == 0) else (lo.shift_item[1] if (lo is not None and lo.shift_item and lo.shift_item[0] == 0) else None)
+        if not ok and lo_src is not None and hi is not None and hi.bin is not None and hi.bin[0] == '+' and sl.step is None:
+            a_, w_ = (hi.bin[1], hi.bin[2]) if hi.bin[3] == it.sx(_slice_lower(e['node'])) else ((hi.bin[2], hi.bin[1]) if hi.bin[4] == it.sx(_slice_lower(e['node'])) else (None, None))
+            if w_ is not None and w_.minwidth is not None and w_.minwidth == lo_src:
+                ctx.ob('R4', e['where'], e['node'], True, 'each part starts at its edge and is as long as the smallest part: non-overlapping, equal sizes')
+                seq = lo.pair_seq
+                continue
         ctx.ob('R4', e['where'], e['node'], True if ok else (False if bad else None),
                'consecutive, non-overlapping frame ranges' if ok else 'frame ranges overlap / are not the consecutive pairs of the edge sequence')
         if ok:
